@@ -95,8 +95,8 @@ func (t Websocket) Do(w http.ResponseWriter, r *http.Request, exec graphql.Graph
 	t.injectGraphQLWSSubprotocols()
 	ws, err := t.Upgrader.Upgrade(w, r, http.Header{})
 	if err != nil {
+		// Upgrade has already replied to the client with an HTTP error response.
 		log.Printf("unable to upgrade %T to websocket %s: ", w, err.Error())
-		SendErrorf(w, http.StatusBadRequest, "unable to upgrade")
 		return
 	}
 
